@@ -174,7 +174,9 @@ CHECKS = {
               "dtypes (types 1-4; entry coordinates on the cards must equal the spec's Entries, e.g. lower triangle only for form 6), "
               "GRID and CORD2x sweeps. Mode `perms`: every ARRANGEMENT of up to 5 (thorough 6) distinct ids out of 6 (7) at two offsets "
               "(PermLaws: THRU items are maximal stretches of adjacent +1 steps, expansion gives the ids in the given order) through SPOINT "
-              "(list and ndarray), SET (two widths) and CSUPER. USET tables of 2-6 grids whose input / output systems are drawn from basic "
+              "(list and ndarray), SET (two widths) and CSUPER. Mode `ints`: the cell of every integer of a wrapped list (wtnasints, start field "
+              "2..9 x 0..27 integers; IntLaws: no cell skipped or used twice, fields 2..9, line count) - the card's fields must be the given "
+              "integers in order (layout itself is reported as a spec deviation). USET tables of 2-6 grids whose input / output systems are drawn from basic "
               "and a CORD2R <- CORD2C <- CORD2S chain in any arrangement go through uset2bulk / bulk2uset (same grids, locations, transforms) "
               "and mkcordcardinfo / wtcoordcards / rdcord2cards (every system read back = the one in the table). The written text is also parsed by a neutral fixed-column cell splitter so that a compensating "
               "writer+reader pair of bugs is still seen."),
